@@ -144,6 +144,12 @@ def run(pid, tier, seed, a, t0):
         res = fn(pid, tier)
         items.extend(res)
     timeout = P.get("timeout", 120)
+    _ledger0 = json.load(open(LEDGER)) if os.path.exists(LEDGER) else {}
+    _hints = _ledger0.get("tiers", {})
+    for o in allobls:
+        h = _hints.get(o.oid)
+        if h is not None:
+            o.hint = h
     assumed_obls = [o for o in allobls if getattr(o, "assumed", None)]
     allobls = [o for o in allobls if not getattr(o, "assumed", None)]
     for o in assumed_obls:
@@ -228,9 +234,18 @@ def run(pid, tier, seed, a, t0):
     ledger = json.load(open(LEDGER)) if os.path.exists(LEDGER) else {}
     if a.update_ledger:
         ledger[pid] = proved_ids
+        tiers = ledger.setdefault("tiers", {})
+        for i in items:
+            if i.label == "proved" and i.status == "ok" and i.obligation is not None:
+                mt = re.search(r"\[tier(\d)", i.detail or "")
+                nid = i.iid
+                if mt and int(mt.group(1)) > 0:
+                    tiers[nid] = int(mt.group(1))
+                elif mt and nid in tiers:
+                    del tiers[nid]
         json.dump(ledger, open(LEDGER, "w"), indent=0, sort_keys=True)
         print("ledger updated: %d obligation ids for %s" % (len(proved_ids), pid))
-    missing = [i for i in ledger.get(pid, []) if i not in proved_ids]
+    missing = [i for i in ledger.get(pid, []) if isinstance(ledger.get(pid), list) and i not in proved_ids]
     gen_ids = {norm_id(i.iid) for i in items if i.label == "proved"}
     for m in missing:
         if m not in gen_ids:
